@@ -84,19 +84,30 @@ class SyncSpa:
         self.presses.append(k)
 
 
+class _NoThread:
+    """stands in for threading.Thread inside geckolib.automation.facade: the update thread is never started"""
+
+    def __init__(self, *a, **k):
+        pass
+
+    def start(self):
+        pass
+
+    def join(self, *a):
+        pass
+
+
 def sync_facade(spa):
-    """GeckoFacade without its update thread: __init__'s thread start is skipped, the real
-    _on_connected (heater, watercare, keypad, reminders, scan_outputs, observers) runs."""
-    from geckolib.automation.facade import GeckoFacade
-    from geckolib.driver import Observable
-    f = GeckoFacade.__new__(GeckoFacade)
-    Observable.__init__(f)
-    f._spa = spa
-    f._sensors = []
-    f._binary_sensors = []
-    f._error_sensor = None
-    f._water_heater = f._water_care = f._reminders = f._keypad = f._ecomode = None
-    f._facade_ready = False
+    """the real GeckoFacade.__init__ (its update thread replaced by a no-op double), then the real
+    _on_connected (heater, watercare, keypad, reminders, scan_outputs, observers)"""
+    import geckolib.automation.facade as F
+    spa.isopen = False
+    saved = F.threading
+    F.threading = type("T", (), {"Thread": _NoThread})
+    try:
+        f = F.GeckoFacade(spa)
+    finally:
+        F.threading = saved
     f._on_connected(spa)
     return f
 
